@@ -7,6 +7,7 @@ import Bp7.Model.Hex
 import Bp7.Model.Admin
 import Bp7.Model.Time
 import Bp7.Model.Json
+import Bp7.Model.TsGen
 import Bp7.Spec.Rfc9171
 namespace Bp7.Driver
 open Bp7
@@ -52,6 +53,15 @@ def stateLine (b : Bundle) : String :=
     | .panic _ => "panic"
   showBundle b ++ " | payload=" ++ showOptBytes b.payload
   ++ " valid=" ++ String.intercalate "," (b.validate.map showVErr) ++ " rt=" ++ rt
+
+def parseSched (s : String) : Option (List (Nat × Nat)) :=
+  if s == "-" then some [] else
+  (s.splitOn ",").mapM (fun e => match e.splitOn ":" with
+    | [a, b] => do some (← a.toNat?, ← b.toNat?)
+    | _ => none)
+
+def showPairs (l : List (Nat × Nat)) : String :=
+  String.intercalate " " (l.map (fun p => toString p.1 ++ "." ++ toString p.2))
 
 def answer (line : String) : String :=
   match line.splitOn " " with
@@ -142,6 +152,14 @@ def answer (line : String) : String :=
     match parseEidTok e, bytesOfHex h with
     | some e, some s => resStr showEid (e.newEndpoint s)
     | _, _ => "bad-op"
+  | ["ts.run", sc] =>
+    match parseSched sc with
+    | some sched => ("ok " ++ showPairs (TsGen.run sched).out.reverse).trimAsciiEnd.toString
+    | none => "bad-op"
+  | ["ts.run.pinned", sc] =>
+    match parseSched sc with
+    | some sched => ("ok " ++ showPairs (TsGen.runP sched).out.reverse).trimAsciiEnd.toString
+    | none => "bad-op"
   | ["time.unix", t] =>
     match t.toNat? with
     | some t => "ok " ++ toString (dtnUnix t)
